@@ -419,6 +419,11 @@ def build_summary(ex, spec, args, base_specs, want_bool, arg_types=None):
     sm.attrs = sorted(set(k for k in used) | base_attrs)
     sm.old_attrs = sorted(set(old.keys()) | base_old)
     vt = sm.value if want_bool else (box(sm.value) if sm.value.k != "py" else None)
+    # heap attributes first read inside a nested exploration (generator / comprehension bodies run on a copy of the
+    # state) are not in `used`: collect every G_<attr> / GO_<attr> constant the summary actually mentions
+    _names = _const_names(sm.assume) | (_const_names(vt) if vt is not None else set())
+    sm.attrs = sorted(set(sm.attrs) | {n[2:] for n in _names if n.startswith("G_")})
+    sm.old_attrs = sorted(set(sm.old_attrs) | {n[3:] for n in _names if n.startswith("GO_")})
     free = _free_fresh(sm.assume, set())
     if vt is not None:
         free |= _free_fresh(vt, set())
